@@ -45,9 +45,13 @@ def first_diff(a, b):
     return {"index": min(len(x), len(y)), "implementation": None, "model": None, "lengths": [len(x), len(y)]}
 
 
-def compare(cases):
+def compare(cases, bufs=None):
     """cases: h_scan output lines containing atoms=/act=/acm=/acp= (others are skipped), or dicts with those keys + id.
+    bufs: {case id: hex buffer}; for a case that has a buffer here and a `cands=` token (the real candidate sequence from hook
+    yr_verif_on_candidate) the SEQUENCE is compared too, order included: Model.AcScan.scan over the model-built tables and the
+    specification `expectedScan` of Thm/AcBuild.build_scan_exact must both equal it.
     Returns the list of mismatches (dicts with id, table, first difference, driver_line)."""
+    bufs = bufs or {}
     items = []
     for c in cases:
         if isinstance(c, str):
@@ -61,11 +65,17 @@ def compare(cases):
     if not items:
         compare.last = {"tables_compared": 0}
         return []
-    dl = ["%s atoms=%s" % (t["id"], atoms_arg(t["atoms"])) for t in items]
+    dl = []
+    for t in items:
+        d = "%s atoms=%s" % (t["id"], atoms_arg(t["atoms"]))
+        if t["id"] in bufs and "cands" in t:
+            d += " buf=%s cands=%s" % (bufs[t["id"]], t["cands"])
+        dl.append(d)
     out, rc, err = core.run_parallel([core.driver_path(), "acbuild"], dl)
     mo = {l.split(" ", 1)[0]: l for l in out}
     bad = []
-    hist = {"tables_compared": len(items), "max_table": 0, "max_atoms": 0, "grown": 0, "zero_length_atom": 0, "growth_steps": {}}
+    hist = {"tables_compared": len(items), "max_table": 0, "max_atoms": 0, "grown": 0, "zero_length_atom": 0, "growth_steps": {},
+            "sequences_compared": 0, "candidates_compared": 0, "sequences_with_root_matches": 0}
     for t, d in zip(items, dl):
         ml = mo.get(t["id"])
         nt = t["act"].count(",") + 1
@@ -84,6 +94,15 @@ def compare(cases):
             if mt.get(k) != t[k]:
                 bad.append({"id": t["id"], "table": name, "first_difference": first_diff(t[k], mt.get(k, "")), "driver_line": d, "ac_line": acl})
                 break
+        else:
+            if " cands=" in d:
+                hist["sequences_compared"] += 1
+                hist["candidates_compared"] += 0 if t["cands"] == "-" else t["cands"].count(",") + 1
+                hist["sequences_with_root_matches"] += 1 if ("::" in t["atoms"] and t["cands"] != "-") else 0
+                if mt.get("seq") != "same" or mt.get("spec") != "same":
+                    acl2 = acl.replace(" buf=- cands=-", " buf=%s cands=%s" % (bufs[t["id"]], t["cands"]))
+                    bad.append({"id": t["id"], "table": "candidate sequence (scan over the built tables: %s, specification expectedScan: %s)" %
+                                (mt.get("seq"), mt.get("spec")), "driver_line": d, "ac_line": acl2})
     compare.last = hist
     return bad
 
@@ -112,8 +131,12 @@ def gen_bytes(r, dense):
     return stem[r.randrange(4):] + tail + stem[:r.randrange(1, 5)]
 
 
+PLANT = []
+
+
 def gen_text(r, dense):
     w = gen_bytes(r, dense)
+    PLANT.append(w)
     mods = r.choice(["", "", "ascii", "nocase", "wide", "ascii wide", "wide nocase", "fullword", "xor", "xor(1-3)", "xor(%d)" % r.randrange(256),
                      "xor(250-255) wide", "private", "base64", "base64wide", "ascii wide nocase fullword"])
     if mods.startswith("base64") and len(w) < 3:
@@ -123,6 +146,7 @@ def gen_text(r, dense):
 
 def gen_hex(r, dense):
     w = gen_bytes(r, dense)
+    PLANT.append(w)
     parts = ["%02X" % c for c in w]
     u = r.random()
     if len(parts) >= 3 and u < 0.25:
@@ -144,9 +168,11 @@ def re_esc(b):
 
 def gen_regex(r, dense):
     w = gen_bytes(r, dense)
+    PLANT.append(w)
     a, b = w[:len(w) // 2], w[len(w) // 2:]
     u = r.random()
     if u < 0.08:
+        PLANT.append(None)                                                   # marks: this rule set has a zero-length atom
         return r.choice(["/[a-z]+x?/", "/.{2}y?/", "/\\w\\w/"])               # no usable atom: zero-length atom in the root state
     if not a or not b:
         return "/%s/" % re_esc(w)
@@ -192,8 +218,26 @@ def sweep(r, tag, nparents, base, count, shuffle=False):
     lines = []
     for n in range(base, base + count):
         strs = " ".join("$s%d = { %02X %02X }" % (i, a, b) for i, (a, b) in enumerate(seq[:n]))
-        lines.append("%s%d src=%s atoms=1 actab=1 buf=-" % (tag, n, hx(("rule r { strings: %s condition: any of them }" % strs).encode())))
+        buf = bytes(x for a, b in seq[max(0, n - 3):n] for x in (a, b)) + bytes([A[0]])
+        lines.append("%s%d src=%s atoms=1 cands=1 actab=1 buf=%s" % (tag, n, hx(("rule r { strings: %s condition: any of them }" % strs).encode()), hx(buf)))
     return lines
+
+
+def gen_buf(r, words, maxlen):
+    """a buffer with planted (pieces of) the strings of the rule set, overlapping, plus filler; also the empty buffer"""
+    if r.random() < 0.05 or not words:
+        return b""
+    if r.random() < 0.2:
+        return r.choice(words)[:maxlen]                     # the buffer IS one string: backtrack == position == |buf| in the pass after the loop
+    b = bytearray()
+    while len(b) < maxlen:
+        w = r.choice(words)
+        u = r.random()
+        b += w if u < 0.5 else (w[r.randrange(len(w)):] + w[:r.randrange(1, len(w) + 1)] if u < 0.8 else bytes(r.choice(ALPHA) for _ in range(r.randrange(1, 4))))
+    b = b[:r.randrange(1, maxlen + 1)]
+    if r.random() < 0.3:
+        b += b"~"                                            # ends in the root state: root matches (zero-length atoms) in the pass after the loop
+    return bytes(b)
 
 
 def rulesets(r, kind, tier):
@@ -205,8 +249,13 @@ def rulesets(r, kind, tier):
     lines = []
     for i, n in enumerate(targets):
         dense = r.random() < 0.5
+        del PLANT[:]
         src = gen_ruleset(r, kind, n, dense)
-        lines.append("ab%d src=%s atoms=1 actab=1 buf=-" % (i, hx(src.encode())))
+        zero = None in PLANT
+        words = [w for w in PLANT if w]
+        lines.append("ab%d src=%s atoms=1 cands=1 actab=1 buf=%s" % (i, hx(src.encode()), hx(gen_buf(r, words, 24 if n > 400 else 64))))
+        if zero:                                 # root matches: also the empty buffer (only the pass after the loop runs, in the root state)
+            lines.append("ab%dz src=%s atoms=1 cands=1 actab=1 buf=-" % (i, hx(src.encode())))
     if tier == "quick":
         lines += sweep(r, "sw", r.choice([2, 3, 4]), r.randrange(20, 240), 260)
     else:
@@ -226,6 +275,13 @@ def report(chk, bad, lines_by_id, tag):
         if m.get("ac_line"):
             out, _, _ = core.run_lines([core.driver_path(), "ac"], [m["ac_line"]])
             cert = bool(out) and "cert=1" in out[0]
+        if m["table"].startswith("candidate sequence"):
+            chk.violation("acbuild_%s_%d.json" % (tag, i), {
+                "kind": "Aho-Corasick scan: on this rule set and buffer the real candidate sequence (hook yr_verif_on_candidate) differs from the sequence "
+                        "Thm/AcBuild.build_scan_exact proves for the model (%s)" % m["table"],
+                "acbuild": True, "harness": "h_scan", "engine": "acbuild", "harness_line": lines_by_id.get(m["id"]),
+                "driver_line": m["driver_line"], "real_tables_certificate": cert})
+            continue
         chk.violation("acbuild_%s_%d.json" % (tag, i), {
             "kind": "Aho-Corasick construction: the tables of the real automaton differ from the tables the Lean model of ahocorasick.c "
                     "builds from the same atoms (%s); the certificate of Thm/AcCert on the real tables %s" %
@@ -247,7 +303,7 @@ def run_extra(chk, b, r, kind, tier):
                                              "stderr": err, "harness": "h_scan", "acbuild": True})
         found = True
     ok = [l for l in outs if " act=" in l]
-    bad = compare(ok)
+    bad = compare(ok, {l.split(" ", 1)[0]: l.rsplit("buf=", 1)[1] for l in lines})
     hist = dict(compare.last)
     hist["rule_sets"] = len(lines)
     hist["compiled"] = len(ok)
@@ -266,6 +322,7 @@ def replay(chk, b, obj):
     """re-run one filed case: compile the rule set again (or reuse the stored tables) and compare"""
     if obj.get("harness_line"):
         outs, rc, err = core.run_lines([b["h_scan"]], [obj["harness_line"]])
-        bad = compare(outs)
+        hl = obj["harness_line"]
+        bad = compare(outs, {hl.split(" ", 1)[0]: hl.rsplit("buf=", 1)[1].split()[0]} if "buf=" in hl else None)
         return report(chk, bad, {obj["harness_line"].split(" ", 1)[0]: obj["harness_line"]}, "replay") or rc != 0
     return False
